@@ -293,3 +293,8 @@ def run(ctx: Context) -> None:
     ctx.isolate(r2c_running_pinned_to_now)
     ctx.isolate(r3_all_parents_placed)
     ctx.isolate(c10.r6_indicator_pairs, rule="C11.R3b")
+    from . import c12
+    ctx.isolate(c12.strategy_extremes, "C11.R5")
+    ctx.isolate(c10.r8_filter_visits_every_graph, rule="C11.R7")
+    from . import c17
+    ctx.isolate(c17.cache_coherence, "C11.R6", ("ExecutionStrategies", "ExecutionStrategy", "Task"), "worst-case runtimes taken from the strategy set", 3)
